@@ -37,10 +37,10 @@ BUDGET = {"quick": 300, "thorough": 2400}
 
 def cases(tier, seed):
     out = []
-    n_mol = 10 if tier == "quick" else 120
+    n_mol = 10 if tier == "quick" else 400
     out += [{"sub": "taper", "i": i} for i in range(n_mol)]
-    out += [{"sub": "trim", "i": i} for i in range(240 if tier == "quick" else 8000)]
-    out += [{"sub": "trunc", "i": i} for i in range(200 if tier == "quick" else 6000)]
+    out += [{"sub": "trim", "i": i} for i in range(240 if tier == "quick" else 40000)]
+    out += [{"sub": "trunc", "i": i} for i in range(200 if tier == "quick" else 30000)]
     return out
 
 
